@@ -367,8 +367,22 @@ def exc_matches(name, handler_name):
 class LoopSpec(object):
     """invariant for a while loop: see Interp.exec_loop_with_spec"""
     def __init__(self, invariant, havoc, name='loop', ghost=None, body_post=None, exit_post=None):
-        self.invariant, self.havoc, self.name = invariant, havoc, name
-        self.ghost, self.body_post, self.exit_post = ghost, body_post, exit_post
+        # a specification names locals of the loop it was written for; if the loop in the current source no longer has them (renamed counter, while
+        # turned into for), the specification does not apply: that is 'outside reach' (undecided), neither a proof nor a crash of the checker
+        def guard(f):
+            if f is None:
+                return None
+
+            def g(env, *a):
+                try:
+                    return f(env, *a)
+                except KeyError as e:
+                    if isinstance(env, dict) or hasattr(env, 'keys'):
+                        raise Unsupported('loop specification %r refers to a local variable the loop does not have: %s' % (name, e))
+                    raise
+            return g
+        self.invariant, self.havoc, self.name = guard(invariant), guard(havoc), name
+        self.ghost, self.body_post, self.exit_post = guard(ghost), guard(body_post), guard(exit_post)
 
 
 class Interp(object):
@@ -1486,6 +1500,11 @@ class Interp(object):
             import traceback
             tb = traceback.extract_tb(ex.__traceback__)
             if len(tb) <= 1:
+                owner = getattr(fv, '__self__', None)
+                modname = (type(owner).__module__ if owner is not None else getattr(fv, '__module__', '')) or ''
+                if modname.startswith('kvc.'):
+                    # a call form the engine's own model of numpy / the standard library does not cover: NOT an error of the program under verification
+                    raise Unsupported('%s call form not modelled: %s' % (self.where, ex))
                 raise PyRaise('TypeError', str(ex), self.where)
             raise
 
